@@ -178,6 +178,7 @@ def catalogue():
     # distance
     add("distance.pdist", lambda: [seqs()], lambda a: distance.pdist(a[0]))
     add("distance.cdist", lambda: [seqs(), seqs2()], lambda a: distance.cdist(a[0], a[1]))
+    add("distance.cdist-same-collection", lambda: [seqs()], lambda a: [distance.cdist(a[0], a[0]), distance.cdist(a[0], list(a[0]))])
     add("distance.downsample", lambda: [seqs()], lambda a: distance.downsample(a[0], 3), True)
     add("distance.pcDelta", lambda: [seqs()], lambda a: distance.pcDelta(a[0]))
     add("distance.pcDelta-two", lambda: [seqs(), seqs2(), [0, 1, 2, 3]], lambda a: distance.pcDelta(a[0], a[1], bins=a[2], pseudocount=0.5))
